@@ -132,10 +132,21 @@ template <class A, class... Args> inline A opaqueA (const std::string& name, con
 
 } // namespace symns
 
+// With c10frac.h included first (SYMNS_HAVE_FRACS) the REAL Vec::length is also instantiated at the exact-fraction type
+// FracS (fixed rational stubs for sqrt and the limit constants, the same as the tree evaluator and the Lean side use), so
+// that troute.lean_tv validates the emitted text of entries that call length() (call order, tmin/tmax argument order)
+// instead of skipping them.
+#ifdef SYMNS_HAVE_FRACS
+#define OPAQUE_LENGTH_Q(V, N)                                                                               \
+    , [] (const std::vector<symns::Frac>& a) { return symns::fracRun ([&] { IMATH_INTERNAL_NAMESPACE::V<symns::FracS> v; \
+          for (int i = 0; i < N; ++i) v[i] = symns::FracS (a[i]); return std::vector<symns::FracS>{v.length ()}; }); }
+#else
+#define OPAQUE_LENGTH_Q(V, N)
+#endif
 #define OPAQUE_LENGTH(V, LEANV, N)                                                                          \
     IMATH_INTERNAL_NAMESPACE_HEADER_ENTER                                                                    \
     template <> inline symns::Sym V<symns::Sym>::length () const IMATH_NOEXCEPT { return symns::opaqueS (LEANV ".length", *this); } \
     IMATH_INTERNAL_NAMESPACE_HEADER_EXIT                                                                     \
     static int native_##V##_length = (symns::natives ()[LEANV ".length"] = symns::Native{                      \
         [] (const std::vector<double>& a) { IMATH_INTERNAL_NAMESPACE::V<double> v; for (int i = 0; i < N; ++i) v[i] = a[i]; return std::vector<double>{v.length ()}; }, \
-        [] (const std::vector<float>& a) { IMATH_INTERNAL_NAMESPACE::V<float> v; for (int i = 0; i < N; ++i) v[i] = a[i]; return std::vector<float>{v.length ()}; }}, 0);
+        [] (const std::vector<float>& a) { IMATH_INTERNAL_NAMESPACE::V<float> v; for (int i = 0; i < N; ++i) v[i] = a[i]; return std::vector<float>{v.length ()}; } OPAQUE_LENGTH_Q (V, N)}, 0);
